@@ -142,7 +142,7 @@ pub mod blocks {
         kani::cover!(true, "reached");
     }
 
-    #[cfg(any(vcfg_x86std, vcfg_x86alloc, vcfg_x86avx2, vcfg_x86rel, vcfg_generic, vcfg_neon, vcfg_simd128))]
+    #[cfg(not(vcfg_x86none))]
     pub fn shiftor<const NMAX: usize, const HMAX: usize>() {
         use memchr::arch::all::shiftor;
         let nb: [u8; NMAX] = kani::any();
@@ -179,7 +179,7 @@ inst!(b_rk_fwd_4_10, [props=C12+C05 xprops=C14 tier=quick cfg=x86std+generic t=1
 inst!(b_rk_rev_4_10, [props=C12+C05 xprops=C14 tier=quick cfg=x86std+generic t=1500 role=rabinkarp-rev uw=is_equal_raw:3;Hash:6;rabinkarp::Finder::new:6;rabinkarp::FinderRev::new:6;find_raw:12;rfind_raw:12;oracle:6], 4, blocks::rabinkarp::<4, 10>(true, 0));
 inst!(b_rk_fwd_33, [props=C12+C14 xprops=C05 tier=quick cfg=x86std t=1500 role=rabinkarp-long], 35, blocks::rabinkarp_long::<33, 35>(false));
 inst!(b_rk_rev_34, [props=C12 xprops=C05+C14 tier=thorough cfg=x86std t=1500 role=rabinkarp-long], 36, blocks::rabinkarp_long::<34, 36>(true));
-#[cfg(any(vcfg_x86std, vcfg_x86alloc, vcfg_x86avx2, vcfg_x86rel, vcfg_generic, vcfg_neon, vcfg_simd128))]
+#[cfg(not(vcfg_x86none))]
 inst!(b_shiftor_16_8, [props=C12+C14 tier=quick cfg=x86std t=1500 role=shiftor], 18, blocks::shiftor::<16, 8>());
 inst!(b_shiftor_17_17, [props=C12 xprops=C14 tier=thorough cfg=x86std t=5400 role=shiftor], 19, blocks::shiftor::<17, 17>());
 
@@ -324,9 +324,9 @@ inst!(pp_g8_find_n4, [props=C12 xprops=C05+C14 tier=thorough cfg=x86std t=3600 r
 inst!(pp_g8_pre_n4, [props=C11 xprops=C05+C14 tier=thorough cfg=x86std t=3600 role=packedpair-generic-prefilter], 12, packed::generic::<8, 4, 30>(true, 17));
 inst!(pp_g2_find_n3, [props=C12 xprops=C05+C14 tier=thorough cfg=x86std t=3600 role=packedpair-generic-find], 8, packed::generic::<2, 3, 12>(false, 7));
 inst!(pp_g2_pre_n3, [props=C11 xprops=C05+C14 tier=thorough cfg=x86std t=3600 role=packedpair-generic-prefilter], 8, packed::generic::<2, 3, 12>(true, 7));
-inst!(pp_portable_n3, [props=C11 xprops=C05+C14 tier=quick cfg=generic t=1500 role=packedpair-portable-prefilter], 14, packed::portable::<3, 12>(12));
-inst!(pp_portable_n2, [props=C11 xprops=C05+C14 tier=thorough cfg=generic t=1500 role=packedpair-portable-prefilter], 14, packed::portable::<2, 12>(12));
-inst!(pp_portable_n4, [props=C11 xprops=C05+C14 tier=thorough cfg=generic t=1500 role=packedpair-portable-prefilter], 14, packed::portable::<4, 12>(12));
+inst!(pp_portable_n3, [props=C11 xprops=C05+C14 tier=quick cfg=generic t=1500 role=packedpair-portable-prefilter uw=find_prefilter.0:10;find_raw.0:3;byte_by_byte:10;oracle:6], 4, packed::portable::<3, 9>(9));
+inst!(pp_portable_n2, [props=C11 xprops=C05+C14 tier=thorough cfg=generic t=1500 role=packedpair-portable-prefilter uw=find_prefilter.0:10;find_raw.0:3;byte_by_byte:10;oracle:6], 4, packed::portable::<2, 9>(9));
+inst!(pp_portable_n4, [props=C11 xprops=C05+C14 tier=thorough cfg=generic t=1500 role=packedpair-portable-prefilter uw=find_prefilter.0:10;find_raw.0:3;byte_by_byte:10;oracle:6], 4, packed::portable::<4, 9>(9));
 
 // ---------------------------------------------------------------------------
 // C03 / C04: top-level substring search and the meta searcher
